@@ -138,10 +138,43 @@ def index_name(platform, main, sub, fid):
     return "sqpack/%s/%02x%04x.%s.index%s" % (exp_folder(sub), main, sub, PLATFORM_NAMES[platform], "" if fid == 0 else str(fid))
 
 
+class SparseFile:
+    """file content as an ordered list of writes (for targets addressed beyond 4 GiB)"""
+
+    def __init__(self):
+        self.size = 0
+        self.writes = []
+
+    def write(self, off, data):
+        if data:
+            self.writes.append((off, bytes(data)))
+            self.size = max(self.size, off + len(data))
+
+    def read(self, off, n):
+        n = max(0, min(n, self.size - off))
+        out = bytearray(n)
+        for o, d in self.writes:
+            lo, hi = max(o, off), min(o + len(d), off + n)
+            if lo < hi:
+                out[lo - off:hi - off] = d[lo - o:hi - o]
+        return bytes(out)
+
+    def extents(self):
+        """merged [start, end) ranges that were written"""
+        out = []
+        for o, e in sorted((o, o + len(d)) for o, d in self.writes):
+            if out and o <= out[-1][1]:
+                out[-1][1] = max(out[-1][1], e)
+            else:
+                out.append([o, e])
+        return out
+
+
 class Model:
     """reference semantics on an in-memory tree"""
 
-    def __init__(self, files=None, dirs=None):
+    def __init__(self, files=None, dirs=None, sparse=False):
+        self.sparse = sparse
         self.files = {k: bytearray(v) for k, v in (files or {}).items()}
         self.required_dirs = set()
         for d in (dirs or []):
@@ -163,11 +196,14 @@ class Model:
             d = os.path.dirname(d)
 
     def _write(self, path, off, data):
-        f = self.files.setdefault(path, bytearray())
+        f = self.files.setdefault(path, SparseFile() if self.sparse else bytearray())
         self.touched.add(path)
         self._need_parents(path)
         if not data:
             return  # seek + empty write does not extend a file
+        if isinstance(f, SparseFile):
+            f.write(off, data)
+            return
         if len(f) < off:
             f.extend(b"\0" * (off - len(f)))
         f[off:off + len(data)] = data
@@ -193,7 +229,7 @@ class Model:
                 p = o["path"]
                 data = b"".join(c for c, _ in o["chunks"])
                 if o["offset"] == 0:
-                    self.files[p] = bytearray()
+                    self.files[p] = SparseFile() if self.sparse else bytearray()
                 self._write(p, o["offset"], data)
             elif k == "FD":
                 self.touched.add(o["path"])
